@@ -49,6 +49,16 @@ def leadgap_layout(term="jcc:s0", annots=True):
     return spec
 
 
+def lone_block_layout():
+    """a section that holds a single labelled block (one function per section, -ffunction-sections)"""
+    spec = text_layout("o", annots=False)
+    spec["sections"].append({"name": ".text.lone", "exec": True, "blocks": [
+        {"id": "c0", "kind": "code", "atoms": ["o", "ret"], "syms": ["lone"], "esyms": ["lone_end"], "func": "L", "entry": True}]})
+    spec["sections"].append({"name": ".data.lone", "exec": False, "blocks": [
+        {"id": "q0", "kind": "data", "atoms": ["d", "d"], "syms": ["lone_d"], "esyms": ["lone_d_end"]}]})
+    return spec
+
+
 def orphan_mid_layout():
     """F = {b0}, a code block in no function (padding between functions), G = {b2}"""
     spec = text_layout("o", annots=False)
@@ -344,6 +354,12 @@ def shapes(tier):
     spec = text_layout("jcc:s0")
     spec["mods"] = [rep("b1", 0, 3, "selfloop")]
     out.append(("text/jcc:s0/%s" % mods_name(spec["mods"]), spec))
+    for mods in ([dele("c0", 0, 2, proxy=True)], [dele("c0", 0, 2)], [ins("c0", 1, "mov")], [dele("c0", 0, 1)],
+                 [dele("c0", 0, 2, proxy=True), dele("b1", 0, 3)], [dele("q0", 0, 2)], [dele("q0", 0, 2, proxy=True)],
+                 [dele("q0", 1, 2)], [ins("q0", 1, "byte")]):
+        spec = lone_block_layout()
+        spec["mods"] = copy.deepcopy(mods)
+        out.append(("lone/%s" % mods_name(mods), spec))
     for mods in ([dele("b0", 0, 2)], [dele("b2", 0, 2)], [dele("b0", 0, 2), dele("b1", 0, 3)], [ins("b1", 1, "mov")], [dele("b1", 0, 3)]):
         spec = orphan_mid_layout()
         spec["mods"] = copy.deepcopy(mods)
